@@ -2,6 +2,7 @@ import Pl.Hib
 import Pl.Erase2
 import Pl.Awake
 import Pl.Lifecycle
+import Pl.Gc
 
 /-! # C04 — property theorems (statements only; proofs live in the family libraries) -/
 set_option linter.unusedVariables false
@@ -59,6 +60,28 @@ theorem step_delete_sound :
     (hk : a.kind = .delete) (h : step strict pa anc s a = .ok s'),
     ∃ b br, a.items = [b] ∧ s.get b = some br ∧ br.hib = false ∧ b ∈ s'.dead ∧ s'.get b = none :=
   @Pl.step_delete_sound
+end
+
+section
+open Pl
+
+/-- garbage collection only inserts dispose actions -/
+theorem erase_gc :
+    ∀ (plan : List Action) (h : ∀ a ∈ plan, isDelete a = false),
+    (collectGarbage plan).filter (fun a => !isDelete a) = plan :=
+  @Pl.erase_gc
+
+/-- the table behind it: `(b, i)` is recorded iff action `i` is the last one that mentions branch `b` (each branch once) -/
+theorem lastMentioned_spec :
+    ∀ (plan : List Action), LMInv plan plan.length (lastMentioned plan) :=
+  @Pl.lastMentioned_spec
+
+/-- the disposals of the branches recorded at index `i + j` come directly after action `i + j` -/
+theorem gc_go_shape :
+    ∀ (lm : List (Nat × Nat)) (ps : List Action) (i : Nat),
+    collectGarbage.go lm i ps = ps.zipIdx.flatMap (fun pj =>
+      pj.1 :: (((lm.filter (·.2 = i + pj.2)).map (·.1)).mergeSort (· ≤ ·)).map (fun b => (⟨.delete, 0, [b]⟩ : Action))) :=
+  @Pl.gc_go_shape
 end
 
 end Props.C04
